@@ -270,15 +270,30 @@ Qed.
 Theorem agg_cell_spec cs :
   agg_cell ACount cs = Some (Z.of_nat (length (present cs))) /\
   (present cs = [] -> agg_cell ASum cs = None /\ agg_cell AMean cs = None) /\
-  (present cs <> [] -> agg_cell ASum cs = Some (zsum (present cs)) /\
-                       agg_cell AMean cs = Some (zsum (present cs) / Z.of_nat (length (present cs)))).
+  (present cs <> [] -> has_pinf cs = false -> has_ninf cs = false ->
+     agg_cell ASum cs = Some (zsum (present cs)) /\
+     agg_cell AMean cs = Some (zsum (present cs) / Z.of_nat (length (present cs)))) /\
+  (present cs <> [] -> has_pinf cs = true -> has_ninf cs = false -> agg_cell ASum cs = Some INFZ /\ agg_cell AMean cs = Some INFZ) /\
+  (present cs <> [] -> has_pinf cs = false -> has_ninf cs = true -> agg_cell ASum cs = Some (- INFZ) /\ agg_cell AMean cs = Some (- INFZ)) /\
+  (has_pinf cs = true -> has_ninf cs = true -> agg_cell ASum cs = None /\ agg_cell AMean cs = None).
 Proof.
   unfold agg_cell. rewrite n_impl_spec, sum_impl_spec. split; [reflexivity|]. split.
   - intros ->. simpl. split; reflexivity.
-  - intros H. destruct (present cs) as [|v l] eqn:E; [contradiction|].
-    assert (Z.of_nat (length (v :: l)) =? 0 = false) as ->.
-    { apply Z.eqb_neq. simpl length. lia. }
-    split; reflexivity.
+  - assert (NZ : present cs <> [] -> Z.of_nat (length (present cs)) =? 0 = false).
+    { intros H. destruct (present cs) as [|v l]; [contradiction|]. apply Z.eqb_neq. simpl length. lia. }
+    split; [|split; [|split]].
+    + intros H Hp Hn. rewrite (NZ H), Hp, Hn. split; reflexivity.
+    + intros H Hp Hn. rewrite (NZ H), Hp, Hn. split; reflexivity.
+    + intros H Hp Hn. rewrite (NZ H), Hp, Hn. split; reflexivity.
+    + intros Hp Hn. rewrite Hp, Hn. destruct (Z.of_nat (length (present cs)) =? 0); split; reflexivity.
+Qed.
+
+(* an infinite operand is data, not a missing value: it is counted *)
+Lemma present_counts_inf cs : has_pinf cs = true \/ has_ninf cs = true -> present cs <> [].
+Proof.
+  intros H E. assert (Q : forall c, In c cs -> c = None) by (apply present_nil; exact E).
+  destruct H as [H|H]; unfold has_pinf, has_ninf in H; apply existsb_exists in H; destruct H as [c [Hc Hv]];
+    rewrite (Q c Hc) in Hv; discriminate.
 Qed.
 
 (* a list of series: the aggregate is a series on the joint index, cell = aggregate of the aligned cells *)
@@ -728,3 +743,25 @@ Section MINMAXF.
     apply (fold_mm2_synced m C P rest (fun t x => ocell m None (OF c0 r0) x t)).
   Qed.
 End MINMAXF.
+
+(* min_ / max_ of a one-column frame and a Series (either order): the frame is squeezed to its column, the result is a Series *)
+Theorem minmax_one_column opc h m ch c0 r s P : join_index h [index_of r; index_of s] = Some P ->
+  minmax opc h m ch [OF [c0] r; OS s] =
+    Some (OS (map (fun t => (t, opc (row_get [c0] (row_val m [c0] r t) c0) (val_at m s t))) P)).
+Proof.
+  intros HP. unfold minmax, df_sync. cbn [map]. cbn [flatten flat_map app].
+  unfold df_index. simpl pd_indexes. rewrite HP. simpl frame_cols.
+  replace (join_index ch []) with (@None (list Z)) by reflexivity.
+  cbn [tmap map flatten flat_map app reindex_obj fold_left mm2 squeeze1].
+  rewrite reindex_m_val_at, reindex_m_row_val, column_map_fn, op2_ss. reflexivity.
+Qed.
+Theorem minmax_one_column_swapped opc h m ch c0 r s P : join_index h [index_of s; index_of r] = Some P ->
+  minmax opc h m ch [OS s; OF [c0] r] =
+    Some (OS (map (fun t => (t, opc (val_at m s t) (row_get [c0] (row_val m [c0] r t) c0))) P)).
+Proof.
+  intros HP. unfold minmax, df_sync. cbn [map]. cbn [flatten flat_map app].
+  unfold df_index. simpl pd_indexes. rewrite HP. simpl frame_cols.
+  replace (join_index ch []) with (@None (list Z)) by reflexivity.
+  cbn [tmap map flatten flat_map app reindex_obj fold_left mm2 squeeze1].
+  rewrite reindex_m_val_at, reindex_m_row_val, column_map_fn, op2_ss. reflexivity.
+Qed.
